@@ -224,3 +224,20 @@ func Counted(label string) int {
 
 // Yield is a scheduling point with no effect (concurrent harnesses).
 func Yield() {}
+
+// JSONMembers is the JSON object encoding/json produces for the struct v, as the map
+// encoding/json's decoder yields for it: member names, omitted members and member values
+// after one Marshal/Unmarshal trip.  Natively it is exactly that trip through the real
+// library.  Under the executor it is computed from v's struct tags (engine/jsonmodel.go);
+// conv converts fields whose type marshals itself (MarshalJSON/MarshalText).
+func JSONMembers(v interface{}, conv func(interface{}) interface{}) map[string]interface{} {
+	b, err := json.Marshal(v)
+	if err != nil {
+		panic(err)
+	}
+	var m map[string]interface{}
+	if err := json.Unmarshal(b, &m); err != nil {
+		panic(err)
+	}
+	return m
+}
